@@ -31,17 +31,39 @@ def anchors() -> Set[str]:
     return _ANCHORS
 
 
+class Once(ast.stmt):
+    """A block executed exactly once; `break` inside it leaves the block (the spliced body of a helper whose returns
+    are not all in tail position: `return E` became `<deliver E>; break`)."""
+    _fields = ("body",)
+
+
 def normalise(tree: ast.Module) -> None:
-    _iso(tree)
+    """Single-module form (kept for probes): no cross-module helpers."""
+    normalise_program({"<module>": tree}, set())
+
+
+def normalise_program(trees: Dict[str, ast.Module], pkgs: Set[str]) -> None:
+    for t in trees.values():
+        _iso(t)
     inlined = False
-    for _ in range(3):  # helpers calling helpers
-        if not _inline_helpers(tree):
+    for _ in range(4):  # helpers calling helpers
+        helpers = {m: _collect_helpers(t) for m, t in trees.items()}
+        changed = False
+        for m, t in trees.items():
+            if ".tests" in m or m.endswith("tests"):
+                continue
+            changed |= _inline_helpers(m, t, helpers, trees, pkgs)
+        if not changed:
             break
         inlined = True
+    for t in trees.values():
+        if inlined:
+            _fold_constant_ifs(t)  # a flag parameter bound to True/False at the call site
     if inlined:
-        _fold_constant_ifs(tree)  # a flag parameter bound to True/False at the call site
-    _return_temp(tree)
-    ast.fix_missing_locations(tree)
+        _drop_dead_helpers(trees)
+    for t in trees.values():
+        _return_temp(t)
+        ast.fix_missing_locations(t)
 
 
 # ---------------------------------------------------------------------------
@@ -117,6 +139,10 @@ def _return_temp(tree: ast.Module) -> None:
 # ---------------------------------------------------------------------------
 # helper inlining
 
+import builtins as _builtins
+
+_BUILTINS = set(dir(_builtins))
+
 
 def _doc_stripped(body: List[ast.stmt]) -> List[ast.stmt]:
     if body and isinstance(body[0], ast.Expr) and isinstance(body[0].value, ast.Constant) and isinstance(body[0].value.value, str):
@@ -128,11 +154,49 @@ def _simple(e: ast.expr) -> bool:
     return isinstance(e, (ast.Name, ast.Constant)) or (isinstance(e, ast.Attribute) and _simple(e.value))
 
 
+def _own_nodes(fn: ast.AST):
+    """Nodes of a function body without descending into nested defs / classes (lambdas are descended into)."""
+    stack = list(reversed(fn.body))
+    while stack:
+        n = stack.pop()
+        yield n
+        if isinstance(n, (ast.FunctionDef, ast.AsyncFunctionDef, ast.ClassDef)):
+            continue
+        stack.extend(reversed(list(ast.iter_child_nodes(n))))
+
+
+def _params_of(fn: ast.AST) -> List[str]:
+    a = fn.args
+    out = [x.arg for x in a.posonlyargs + a.args + a.kwonlyargs]
+    if a.vararg:
+        out.append(a.vararg.arg)
+    if a.kwarg:
+        out.append(a.kwarg.arg)
+    return out
+
+
+def _locals_of(fn: ast.AST) -> Set[str]:
+    out: Set[str] = set()
+    for n in _own_nodes(fn):
+        if isinstance(n, ast.Name) and isinstance(n.ctx, (ast.Store, ast.Del)):
+            out.add(n.id)
+        elif isinstance(n, ast.ExceptHandler) and n.name:
+            out.add(n.name)
+        elif isinstance(n, (ast.FunctionDef, ast.AsyncFunctionDef, ast.ClassDef)):
+            out.add(n.name)
+        elif isinstance(n, (ast.Import, ast.ImportFrom)):
+            for a in n.names:
+                out.add((a.asname or a.name).split(".")[0])
+    return out
+
+
 class _Helper:
-    def __init__(self, node: ast.FunctionDef, kind: str, cls: Optional[str]):
+    def __init__(self, node: ast.FunctionDef, kind: str, cls: Optional[str], module: str, owner: Optional[ast.AST] = None):
         self.node = node
-        self.kind = kind  # "func" | "method" | "static" | "class"
+        self.kind = kind  # "func" | "method" | "static" | "class" | "nested"
         self.cls = cls
+        self.module = module
+        self.owner = owner  # enclosing function of a nested helper
         self.body = _doc_stripped(node.body)
         a = node.args
         self.params = [x.arg for x in a.posonlyargs + a.args]
@@ -144,15 +208,17 @@ class _Helper:
         for arg, d in zip(a.kwonlyargs, a.kw_defaults):
             if d is not None:
                 self.defaults[arg.arg] = d
-        self.is_expr = len(self.body) == 1 and isinstance(self.body[0], ast.Return) and self.body[0].value is not None
+        self.is_gen = any(isinstance(n, (ast.Yield, ast.YieldFrom)) for n in _own_nodes(node))
+        self.is_expr = (not self.is_gen) and len(self.body) == 1 and isinstance(self.body[0], ast.Return) and self.body[0].value is not None
+        self.locals = _locals_of(node)
+        loaded = {n.id for n in ast.walk(node) if isinstance(n, ast.Name) and isinstance(n.ctx, ast.Load)}
+        self.free = loaded - set(_params_of(node)) - self.locals - _BUILTINS
 
     def bind(self, call: ast.Call, receiver: Optional[ast.expr]) -> Optional[Dict[str, ast.expr]]:
         params = list(self.params)
         out: Dict[str, ast.expr] = {}
         if self.kind in ("method", "class"):
-            if not params:
-                return None
-            if receiver is None:
+            if not params or receiver is None:
                 return None
             out[params[0]] = receiver
             params = params[1:]
@@ -175,11 +241,15 @@ class _Helper:
         return out
 
 
-def _eligible(fn: ast.FunctionDef) -> bool:
-    if fn.name in anchors() or not fn.name.startswith("_") or (fn.name.startswith("__") and fn.name.endswith("__")):
+def _eligible(fn: ast.FunctionDef, nested: bool = False) -> bool:
+    if fn.name in anchors():
+        return False
+    if not nested and (not fn.name.startswith("_") or (fn.name.startswith("__") and fn.name.endswith("__"))):
         return False
     a = fn.args
     if a.vararg or a.kwarg:
+        return False
+    if nested and (a.defaults or any(d is not None for d in a.kw_defaults) or fn.decorator_list):
         return False
     for d in fn.decorator_list:
         if not (isinstance(d, ast.Name) and d.id in ("staticmethod", "classmethod")):
@@ -187,9 +257,10 @@ def _eligible(fn: ast.FunctionDef) -> bool:
     for n in ast.walk(fn):
         if n is fn:
             continue
-        if isinstance(n, (ast.FunctionDef, ast.AsyncFunctionDef, ast.ClassDef, ast.Yield, ast.YieldFrom, ast.Await, ast.Global, ast.Nonlocal, ast.Lambda)):
-            if not isinstance(n, ast.Lambda):
-                return False
+        if isinstance(n, (ast.FunctionDef, ast.AsyncFunctionDef, ast.ClassDef, ast.Await, ast.Global, ast.Nonlocal)):
+            return False
+        if isinstance(n, ast.Call) and isinstance(n.func, ast.Name) and n.func.id == fn.name:
+            return False  # recursive
     return True
 
 
@@ -224,16 +295,6 @@ class _Subst(ast.NodeTransformer):
 _counter = [0]
 
 
-def _locals_of(fn: ast.FunctionDef) -> Set[str]:
-    out: Set[str] = set()
-    for n in ast.walk(fn):
-        if isinstance(n, ast.Name) and isinstance(n.ctx, (ast.Store, ast.Del)):
-            out.add(n.id)
-        if isinstance(n, ast.ExceptHandler) and n.name:
-            out.add(n.name)
-    return out
-
-
 def _uses(fn_body: List[ast.stmt], name: str) -> int:
     return sum(1 for st in fn_body for n in ast.walk(st) if isinstance(n, ast.Name) and n.id == name and isinstance(n.ctx, ast.Load))
 
@@ -247,11 +308,38 @@ def _ends(stmts: List[ast.stmt]) -> bool:
         return True
     if isinstance(last, ast.If):
         return bool(last.orelse) and _ends(last.body) and _ends(last.orelse)
+    if isinstance(last, (ast.With, ast.AsyncWith)):
+        return _ends(last.body)
+    if isinstance(last, ast.Try) and not last.finalbody:
+        main = last.orelse if last.orelse else last.body
+        return _ends(main) and all(_ends(h.body) for h in last.handlers)
     return False
 
 
 def _has_return(st: ast.AST) -> bool:
     return any(isinstance(n, ast.Return) for n in ast.walk(st))
+
+
+def _returns_in_loops(stmts: List[ast.stmt]) -> bool:
+    for st in stmts:
+        for n in ast.walk(st):
+            if isinstance(n, (ast.For, ast.AsyncFor, ast.While)) and _has_return(n):
+                return True
+    return False
+
+
+class _RetToBreak(ast.NodeTransformer):
+    def __init__(self, sink):
+        self.sink = sink
+
+    def visit_Return(self, n: ast.Return):
+        return list(self.sink(n.value)) + [ast.copy_location(ast.Break(), n)]
+
+    def visit_FunctionDef(self, n):
+        return n
+
+    def visit_Lambda(self, n):
+        return n
 
 
 def _tail_convert(stmts: List[ast.stmt], sink) -> Optional[List[ast.stmt]]:
@@ -293,62 +381,261 @@ def _tail_convert(stmts: List[ast.stmt], sink) -> Optional[List[ast.stmt]]:
                 out.append(ast.copy_location(ast.If(test=st.test, body=body or [ast.Pass()], orelse=rest), st))
                 return out
             return None
+        if isinstance(st, (ast.With, ast.AsyncWith)) and _has_return(st):
+            if not _ends(st.body):
+                return None
+            body = _tail_convert(st.body, sink)
+            if body is None:
+                return None
+            new = copy.copy(st)
+            new.body = body or [ast.Pass()]
+            out.append(new)
+            return out
+        if isinstance(st, ast.Try) and _has_return(st):
+            if st.finalbody and any(_has_return(x) for x in st.finalbody):
+                return None
+            if not _ends([ast.Try(body=st.body, handlers=st.handlers, orelse=st.orelse, finalbody=[])]):
+                return None
+            new = copy.copy(st)
+            if st.orelse:
+                if any(_has_return(x) for x in st.body):
+                    return None
+                new.orelse = _tail_convert(st.orelse, sink)
+                if new.orelse is None:
+                    return None
+            else:
+                new.body = _tail_convert(st.body, sink)
+                if new.body is None:
+                    return None
+            hs = []
+            for h in st.handlers:
+                hb = _tail_convert(h.body, sink)
+                if hb is None:
+                    return None
+                h2 = copy.copy(h)
+                h2.body = hb or [ast.Pass()]
+                hs.append(h2)
+            new.handlers = hs
+            out.append(new)
+            return out
+        if isinstance(st, (ast.For, ast.AsyncFor, ast.While)) and _has_return(st):
+            # for x in it: ... return E ...   <rest with tail returns>   ->   for ...: ... deliver E; break ... else: <rest>
+            inner_loops = [n for b in st.body for n in ast.walk(b) if isinstance(n, (ast.For, ast.AsyncFor, ast.While))]
+            if st.orelse or any(_has_return(l) for l in inner_loops):
+                return None
+            if any(isinstance(n, ast.Break) for b in st.body for n in ast.walk(b)):
+                return None
+            rest = _tail_convert(list(stmts[i + 1:]), sink)
+            if rest is None:
+                return None
+            new = copy.copy(st)
+            nb: List[ast.stmt] = []
+            for b in st.body:
+                r = _RetToBreak(sink).visit(b)
+                nb.extend(r if isinstance(r, list) else [r])
+            new.body = nb
+            new.orelse = rest
+            out.append(new)
+            return out
         if _has_return(st):
-            return None  # return inside a loop / try / with
+            return None
         out.append(st)
     if not _ends(list(stmts)):
         out.extend(sink(None))
     return out
 
 
+def _once_convert(stmts: List[ast.stmt], sink, at: ast.AST) -> Optional[List[ast.stmt]]:
+    """General fallback: the body runs inside a Once block, `return E` -> deliver E; break."""
+    if _returns_in_loops(stmts):
+        return None
+    nb: List[ast.stmt] = []
+    for b in stmts:
+        r = _RetToBreak(sink).visit(b)
+        nb.extend(r if isinstance(r, list) else [r])
+    if not _ends(list(stmts)):
+        nb.extend(sink(None))
+    o = Once(body=nb or [ast.Pass()])
+    ast.copy_location(o, at)
+    return [o]
+
+
 def _collect_helpers(tree: ast.Module) -> Dict[Tuple[Optional[str], str], _Helper]:
     out: Dict[Tuple[Optional[str], str], _Helper] = {}
     for st in tree.body:
         if isinstance(st, ast.FunctionDef) and _eligible(st):
-            out[(None, st.name)] = _Helper(st, "func", None)
+            out[(None, st.name)] = _Helper(st, "func", None, "")
         if isinstance(st, ast.ClassDef):
             for m in st.body:
                 if isinstance(m, ast.FunctionDef) and _eligible(m):
                     decos = [d.id for d in m.decorator_list if isinstance(d, ast.Name)]
                     kind = "static" if "staticmethod" in decos else ("class" if "classmethod" in decos else "method")
-                    out[(st.name, m.name)] = _Helper(m, kind, st.name)
+                    out[(st.name, m.name)] = _Helper(m, kind, st.name, "")
     return out
 
 
-def _match_call(call: ast.Call, helpers, cls_name: Optional[str], self_names: Set[str]):
-    f = call.func
-    if isinstance(f, ast.Name) and (None, f.id) in helpers:
-        return helpers[(None, f.id)], None
-    if isinstance(f, ast.Attribute) and isinstance(f.value, ast.Name):
-        base = f.value.id
-        # self.helper(...) / cls.helper(...) inside the same class, or ClassName.helper(...)
-        for (c, n), h in helpers.items():
-            if n != f.attr or c is None:
-                continue
-            if (base in self_names and c == cls_name) or base == c:
-                if h.kind == "static":
-                    return h, None
-                if h.kind == "method" and base in self_names:
-                    return h, f.value
-                if h.kind == "class":
-                    return h, f.value
-    return None, None
+def _abs_module(mod: str, is_pkg: bool, level: int, name: Optional[str]) -> str:
+    if level == 0:
+        return name or ""
+    base = mod.split(".")
+    if not is_pkg:
+        base = base[:-1]
+    if level > 1:
+        base = base[: len(base) - (level - 1)]
+    return ".".join(base + ([name] if name else []))
 
 
-def _inline_helpers(tree: ast.Module) -> bool:
-    helpers = _collect_helpers(tree)
+def _top_names(tree: ast.Module) -> Set[str]:
+    out: Set[str] = set()
+    for st in ast.walk(tree):
+        if isinstance(st, (ast.FunctionDef, ast.AsyncFunctionDef, ast.ClassDef)):
+            continue
+    for st in tree.body:
+        stack = [st]
+        while stack:
+            s = stack.pop()
+            if isinstance(s, (ast.FunctionDef, ast.AsyncFunctionDef, ast.ClassDef)):
+                out.add(s.name)
+            elif isinstance(s, (ast.Import, ast.ImportFrom)):
+                for a in s.names:
+                    out.add((a.asname or a.name).split(".")[0])
+            elif isinstance(s, ast.Assign):
+                for t in s.targets:
+                    out.update(n.id for n in ast.walk(t) if isinstance(n, ast.Name))
+            elif isinstance(s, (ast.AnnAssign, ast.AugAssign)):
+                out.update(n.id for n in ast.walk(s.target) if isinstance(n, ast.Name))
+            elif isinstance(s, (ast.If, ast.Try)):
+                stack.extend(c for c in ast.iter_child_nodes(s) if isinstance(c, (ast.stmt, ast.ExceptHandler)))
+            elif isinstance(s, ast.ExceptHandler):
+                stack.extend(s.body)
+    return out
+
+
+class _Scope:
+    """What a call inside one function may refer to."""
+
+    def __init__(self, by_name: Dict[str, _Helper], by_class: Dict[Tuple[str, str], _Helper], cls_name: Optional[str], self_names: Set[str]):
+        self.by_name = by_name
+        self.by_class = by_class
+        self.cls_name = cls_name
+        self.self_names = self_names
+
+    def match(self, call: ast.Call):
+        f = call.func
+        if isinstance(f, ast.Name) and f.id in self.by_name:
+            return self.by_name[f.id], None
+        if isinstance(f, ast.Attribute) and isinstance(f.value, ast.Name):
+            base = f.value.id
+            for (c, n), h in self.by_class.items():
+                if n != f.attr:
+                    continue
+                if (base in self.self_names and c == self.cls_name) or base == c:
+                    if h.kind == "static":
+                        return h, None
+                    if h.kind == "method" and base in self.self_names:
+                        return h, f.value
+                    if h.kind == "class":
+                        return h, f.value
+        return None, None
+
+
+_BLOCK = object()
+
+
+def _eval_order(e: ast.AST):
+    """Impure nodes (calls etc.) of *e* in completion order; _BLOCK where evaluation becomes conditional."""
+    if isinstance(e, ast.Call):
+        yield from _eval_order(e.func)
+        for a in e.args:
+            yield from _eval_order(a)
+        for k in e.keywords:
+            yield from _eval_order(k.value)
+        yield e
+    elif isinstance(e, ast.BoolOp):
+        yield from _eval_order(e.values[0])
+        if any(isinstance(n, (ast.Call, ast.Await, ast.Yield, ast.YieldFrom, ast.NamedExpr)) for v in e.values[1:] for n in ast.walk(v)):
+            yield _BLOCK
+    elif isinstance(e, ast.IfExp):
+        yield from _eval_order(e.test)
+        if any(isinstance(n, (ast.Call, ast.Await, ast.Yield, ast.YieldFrom, ast.NamedExpr)) for v in (e.body, e.orelse) for n in ast.walk(v)):
+            yield _BLOCK
+    elif isinstance(e, (ast.Lambda,)):
+        return
+    elif isinstance(e, (ast.ListComp, ast.SetComp, ast.DictComp, ast.GeneratorExp)):
+        yield from _eval_order(e.generators[0].iter)
+        yield _BLOCK
+    elif isinstance(e, (ast.Await, ast.Yield, ast.YieldFrom, ast.NamedExpr)):
+        yield _BLOCK
+    elif isinstance(e, ast.Compare) and len(e.ops) > 1:
+        yield from _eval_order(e.left)
+        yield from _eval_order(e.comparators[0])
+        yield _BLOCK
+    else:
+        for c in ast.iter_child_nodes(e):
+            if isinstance(c, ast.expr):
+                yield from _eval_order(c)
+            elif isinstance(c, (ast.keyword,)):
+                yield from _eval_order(c.value)
+
+
+def _inline_helpers(mod: str, tree: ast.Module, all_helpers, trees, pkgs: Set[str]) -> bool:
+    own = all_helpers[mod]
+    by_name: Dict[str, _Helper] = {n: h for (c, n), h in own.items() if c is None}
+    by_class: Dict[Tuple[str, str], _Helper] = {(c, n): h for (c, n), h in own.items() if c is not None}
+    top = _top_names(tree)
+    # helpers imported from sibling modules
+    for st in tree.body:
+        if isinstance(st, ast.ImportFrom):
+            src_mod = _abs_module(mod, mod in pkgs, st.level, st.module)
+            if src_mod in all_helpers and src_mod != mod:
+                for a in st.names:
+                    h = all_helpers[src_mod].get((None, a.name))
+                    if h is not None and h.free <= top:
+                        by_name[a.asname or a.name] = h
     changed = False
 
-    def process_function(fn: ast.FunctionDef, cls_name: Optional[str]) -> None:
+    def process_function(fn: ast.FunctionDef, cls_name: Optional[str], enclosing: List[ast.FunctionDef], visible_nested: Dict[str, _Helper]) -> None:
         nonlocal changed
         self_names: Set[str] = set()
-        if cls_name is not None and fn.args.args:
+        if cls_name is not None and not enclosing and fn.args.args:
             self_names.add(fn.args.args[0].arg)
-        own_key = (cls_name, fn.name)
-        # nested single-return defs passed by reference -> lambdas
-        nested = {n.name: n for n in ast.walk(fn) if isinstance(n, ast.FunctionDef) and n is not fn and _nested_expr_helper(n)}
+        elif cls_name is not None and enclosing and enclosing[0].args.args:
+            self_names.add(enclosing[0].args.args[0].arg)
+        # nested helpers defined directly in this function
+        nested_here: Dict[str, _Helper] = {}
+        for n in _own_nodes(fn):
+            if isinstance(n, ast.FunctionDef) and _eligible(n, nested=True):
+                stores = sum(1 for x in _own_nodes(fn) if (isinstance(x, ast.Name) and x.id == n.name and isinstance(x.ctx, ast.Store)) or (isinstance(x, ast.FunctionDef) and x.name == n.name))
+                if stores == 1:
+                    nested_here[n.name] = _Helper(n, "nested", None, mod, owner=fn)
+        visible = dict(visible_nested)
+        visible.update(nested_here)
+        names = dict(by_name)
+        for nm in list(names):
+            if nm in _locals_of(fn) or nm in _params_of(fn):
+                del names[nm]  # shadowed
+        names.update(visible)
+        scope = _Scope(names, by_class, cls_name, self_names)
+        scope_locals: Set[str] = set(_locals_of(fn)) | set(_params_of(fn))
+        for e in enclosing:
+            scope_locals |= set(_locals_of(e)) | set(_params_of(e))
+        own_locals = set(_locals_of(fn)) | set(_params_of(fn))
+
+        def usable(h: _Helper) -> bool:
+            if h.node is fn:
+                return False
+            if h.kind == "nested":
+                if h.owner is fn:
+                    return True
+                return not (h.free & own_locals)
+            return not (h.free & scope_locals)
+
+        nested_lam = {n.name: n for n in ast.walk(fn) if isinstance(n, ast.FunctionDef) and n is not fn and _nested_expr_helper(n)}
 
         class Ref(ast.NodeTransformer):
+            def visit_FunctionDef(self, node):
+                return node if node is not fn else self.generic_visit(node)
+
             def visit_Call(self, node: ast.Call):
                 self.generic_visit(node)
                 for i, a in enumerate(node.args):
@@ -363,31 +650,31 @@ def _inline_helpers(tree: ast.Module) -> bool:
 
             def _as_lambda(self, a):
                 nonlocal changed
-                h = None
                 if isinstance(a, ast.Name):
-                    if a.id in nested:
-                        src_fn = nested[a.id]
+                    if a.id in nested_lam:
+                        src_fn = nested_lam[a.id]
                         body = _doc_stripped(src_fn.body)[0].value
                         lam = ast.Lambda(args=copy.deepcopy(src_fn.args), body=copy.deepcopy(body))
                         changed = True
                         return ast.copy_location(lam, a)
-                    if (None, a.id) in helpers and helpers[(None, a.id)].is_expr and (None, a.id) != own_key:
-                        h = helpers[(None, a.id)]
-                if h is not None and not h.defaults:
-                    lam = ast.Lambda(args=copy.deepcopy(h.node.args), body=copy.deepcopy(h.body[0].value))
-                    changed = True
-                    return ast.copy_location(lam, a)
+                    h = scope.by_name.get(a.id)
+                    if h is not None and h.kind == "func" and h.is_expr and not h.defaults and usable(h):
+                        lam = ast.Lambda(args=copy.deepcopy(h.node.args), body=copy.deepcopy(h.body[0].value))
+                        changed = True
+                        return ast.copy_location(lam, a)
                 return None
 
         Ref().visit(fn)
 
-        # expression helpers anywhere
         class Expr(ast.NodeTransformer):
+            def visit_FunctionDef(self, node):
+                return node if node is not fn else self.generic_visit(node)
+
             def visit_Call(self, node: ast.Call):
                 nonlocal changed
                 self.generic_visit(node)
-                h, recv = _match_call(node, helpers, cls_name, self_names)
-                if h is None or not h.is_expr or (h.cls, h.node.name) == own_key:
+                h, recv = scope.match(node)
+                if h is None or not h.is_expr or not usable(h):
                     return node
                 b = h.bind(node, recv)
                 if b is None:
@@ -401,21 +688,98 @@ def _inline_helpers(tree: ast.Module) -> bool:
 
         Expr().visit(fn)
 
-        # statement helpers at call statements
+        def stmt_helper_call(e: Optional[ast.AST]):
+            if isinstance(e, ast.Call):
+                h, recv = scope.match(e)
+                if h is not None and not h.is_expr and usable(h):
+                    return h, recv
+            return None, None
+
+        def hoist(st: ast.stmt) -> List[ast.stmt]:
+            """`x = g(h(a))` -> `t = h(a); x = g(t)` when h(a) is the first call evaluated by the statement."""
+            nonlocal changed
+            exprs: List[Tuple[ast.AST, str]] = []
+            if isinstance(st, ast.Expr):
+                if isinstance(st.value, ast.Call) or (isinstance(st.value, ast.YieldFrom) and isinstance(st.value.value, ast.Call)):
+                    inner = st.value if isinstance(st.value, ast.Call) else st.value.value
+                    if stmt_helper_call(inner)[0] is not None:
+                        return [st]
+                exprs = [(st, "value")]
+            elif isinstance(st, ast.Assign):
+                if len(st.targets) == 1 and stmt_helper_call(st.value)[0] is not None:
+                    return [st]
+                if not all(isinstance(t, ast.Name) or _simple(t) for t in st.targets):
+                    return [st]
+                exprs = [(st, "value")]
+            elif isinstance(st, ast.AnnAssign):
+                if st.value is None or stmt_helper_call(st.value)[0] is not None:
+                    return [st]
+                exprs = [(st, "value")]
+            elif isinstance(st, ast.AugAssign):
+                if not isinstance(st.target, ast.Name):
+                    return [st]
+                exprs = [(st, "value")]
+            elif isinstance(st, ast.Return):
+                if st.value is None or stmt_helper_call(st.value)[0] is not None:
+                    return [st]
+                exprs = [(st, "value")]
+            elif isinstance(st, ast.If):
+                exprs = [(st, "test")]
+            else:
+                return [st]
+            holder, fld = exprs[0]
+            e = getattr(holder, fld)
+            first = next(iter(_eval_order(e)), None)
+            if first is None or first is _BLOCK:
+                return [st]
+            h, _ = stmt_helper_call(first)
+            if h is None or h.is_gen:
+                return [st]
+            _counter[0] += 1
+            tmp = f"_ret__inl{_counter[0]}"
+
+            class Rep(ast.NodeTransformer):
+                def visit_Call(self, node):
+                    if node is first:
+                        return ast.copy_location(ast.Name(id=tmp, ctx=ast.Load()), node)
+                    return self.generic_visit(node)
+
+                def visit_Lambda(self, node):
+                    return node
+
+            setattr(holder, fld, Rep().visit(e))
+            pre = ast.copy_location(ast.Assign(targets=[ast.Name(id=tmp, ctx=ast.Store())], value=first), st)
+            ast.fix_missing_locations(pre)
+            changed = True
+            return [pre, st]
+
         def rewrite_block(body: List[ast.stmt]) -> List[ast.stmt]:
             nonlocal changed
             out: List[ast.stmt] = []
-            for st in body:
+            queue = list(body)
+            guard = 0
+            while queue:
+                st = queue.pop(0)
+                if isinstance(st, (ast.FunctionDef, ast.AsyncFunctionDef, ast.ClassDef)):
+                    out.append(st)
+                    continue
                 for fld in ("body", "orelse", "finalbody"):
                     sub = getattr(st, fld, None)
-                    if isinstance(sub, list) and sub and isinstance(sub[0], ast.stmt) and not isinstance(st, (ast.FunctionDef, ast.AsyncFunctionDef, ast.ClassDef)):
+                    if isinstance(sub, list) and sub and isinstance(sub[0], ast.stmt):
                         setattr(st, fld, rewrite_block(sub))
                 for h_ in getattr(st, "handlers", []):
                     h_.body = rewrite_block(h_.body)
+                hs = hoist(st)
+                if len(hs) == 2 and guard < 50:
+                    guard += 1
+                    queue[0:0] = hs
+                    continue
                 call = None
                 mode = None
                 if isinstance(st, ast.Expr) and isinstance(st.value, ast.Call):
                     call, mode = st.value, "discard"
+                elif isinstance(st, ast.Expr) and isinstance(st.value, ast.YieldFrom) and isinstance(st.value.value, ast.Call):
+                    call, mode = st.value.value, "yieldfrom"
                 elif isinstance(st, ast.Assign) and len(st.targets) == 1 and isinstance(st.value, ast.Call):
                     call, mode = st.value, "assign"
                 elif isinstance(st, ast.AnnAssign) and st.value is not None and isinstance(st.value, ast.Call) and isinstance(st.target, ast.Name):
@@ -423,31 +787,32 @@ def _inline_helpers(tree: ast.Module) -> bool:
                 elif isinstance(st, ast.Return) and isinstance(st.value, ast.Call):
                     call, mode = st.value, "return"
                 if call is not None:
-                    h, recv = _match_call(call, helpers, cls_name, self_names)
-                    if h is not None and not h.is_expr and (h.cls, h.node.name) != own_key:
+                    h, recv = stmt_helper_call(call)
+                    if h is not None and (h.is_gen == (mode == "yieldfrom")):
                         b = h.bind(call, recv)
                         if b is not None:
                             _counter[0] += 1
                             suffix = f"__inl{_counter[0]}"
                             pre: List[ast.stmt] = []
                             mapping: Dict[str, ast.expr] = {}
-                            helper_locals = _locals_of(h.node)
                             for p_, a in b.items():
-                                if _simple(a) and p_ not in helper_locals:
+                                if _simple(a) and p_ not in h.locals:
                                     mapping[p_] = a
                                 else:
                                     tmp = p_ + suffix
                                     pre.append(ast.copy_location(ast.Assign(targets=[ast.Name(id=tmp, ctx=ast.Store())], value=copy.deepcopy(a)), st))
+                                    if p_ in h.locals:
+                                        pass
                                     mapping[p_] = ast.Name(id=tmp, ctx=ast.Load())
-                            rename = {n: n + suffix for n in helper_locals if n not in b}
+                            rename = {n: n + suffix for n in h.locals}
                             for p_ in b:
-                                if p_ in helper_locals:
+                                if p_ in h.locals:
                                     rename[p_] = p_ + suffix
                                     mapping.pop(p_, None)
 
                             def sink(value, _st=st, _mode=mode):
-                                if _mode == "discard":
-                                    return [] if value is None else [ast.copy_location(ast.Expr(value=value), _st)]
+                                if _mode in ("discard", "yieldfrom"):
+                                    return [] if value is None or isinstance(value, ast.Constant) else [ast.copy_location(ast.Expr(value=value), _st)]
                                 v = value if value is not None else ast.Constant(value=None)
                                 if _mode == "assign":
                                     return [ast.copy_location(ast.Assign(targets=copy.deepcopy(_st.targets), value=v), _st)]
@@ -456,28 +821,79 @@ def _inline_helpers(tree: ast.Module) -> bool:
                                 return [ast.copy_location(ast.Return(value=v), _st)]
 
                             body_copy = [_Subst(mapping, rename).visit(copy.deepcopy(x)) for x in h.body]
-                            conv = _tail_convert(body_copy, sink)
+                            if mode == "yieldfrom" and any(isinstance(n, ast.Return) and n.value is not None for x in body_copy for n in ast.walk(x)):
+                                conv = None
+                            elif mode == "return" and not _returns_in_loops(body_copy) or mode == "return":
+                                # the helper's returns are the caller's returns
+                                conv = list(body_copy)
+                                if not _ends(conv):
+                                    conv.append(ast.copy_location(ast.Return(value=ast.Constant(value=None)), st))
+                            else:
+                                conv = _tail_convert(body_copy, sink)
+                                if conv is None:
+                                    body_copy = [_Subst(mapping, rename).visit(copy.deepcopy(x)) for x in h.body]
+                                    conv = _once_convert(body_copy, sink, st)
                             if conv is not None:
-                                for x in conv:
+                                for x in pre + conv:
                                     for sub_ in ast.walk(x):
-                                        if not hasattr(sub_, "lineno") and isinstance(sub_, (ast.stmt, ast.expr)):
+                                        if isinstance(sub_, (ast.stmt, ast.expr, ast.ExceptHandler)) and not hasattr(sub_, "lineno"):
                                             ast.copy_location(sub_, st)
-                                out.extend(pre + conv)
+                                # the spliced body may itself call helpers
+                                out.extend(pre)
+                                out.extend(rewrite_block(conv) if guard < 50 else conv)
+                                guard += 1
                                 changed = True
                                 continue
                 out.append(st)
             return out
 
         fn.body = rewrite_block(fn.body)
+        for n in _own_nodes(fn):
+            if isinstance(n, ast.FunctionDef):
+                process_function(n, cls_name, enclosing + [fn], visible)
 
     for st in tree.body:
         if isinstance(st, ast.FunctionDef):
-            process_function(st, None)
-            for n in ast.walk(st):
-                if isinstance(n, ast.FunctionDef) and n is not st:
-                    process_function(n, None)
+            process_function(st, None, [], {})
         elif isinstance(st, ast.ClassDef):
             for m in st.body:
                 if isinstance(m, ast.FunctionDef):
-                    process_function(m, st.name)
+                    process_function(m, st.name, [], {})
     return changed
+
+
+def _drop_dead_helpers(trees: Dict[str, ast.Module]) -> None:
+    """A non-anchor private helper (or nested def) that is no longer referenced anywhere after inlining is removed:
+    its statements now live in its callers and are judged there."""
+    refs: Dict[str, int] = {}
+    for t in trees.values():
+        for n in ast.walk(t):
+            if isinstance(n, ast.Name) and isinstance(n.ctx, ast.Load):
+                refs[n.id] = refs.get(n.id, 0) + 1
+            elif isinstance(n, ast.Attribute):
+                refs[n.attr] = refs.get(n.attr, 0) + 1
+            elif isinstance(n, ast.Constant) and isinstance(n.value, str) and n.value.isidentifier():
+                refs[n.value] = refs.get(n.value, 0) + 1
+
+    def prune(body: List[ast.stmt], nested: bool) -> None:
+        for st in list(body):
+            if isinstance(st, ast.FunctionDef) and _eligible(st, nested=nested) and refs.get(st.name, 0) == 0:
+                body.remove(st)
+                continue
+            if isinstance(st, ast.ClassDef):
+                prune(st.body, False)
+            elif isinstance(st, ast.FunctionDef):
+                for holder in ast.walk(st):
+                    for fld in ("body", "orelse", "finalbody"):
+                        sub = getattr(holder, fld, None)
+                        if isinstance(sub, list) and sub and isinstance(sub[0], ast.stmt) and any(isinstance(x, ast.FunctionDef) for x in sub):
+                            for x in list(sub):
+                                if isinstance(x, ast.FunctionDef) and _eligible(x, nested=True) and refs.get(x.name, 0) == 0:
+                                    sub.remove(x)
+                            if not sub:
+                                sub.append(ast.copy_location(ast.Pass(), holder))
+        if not body:
+            body.append(ast.Pass())
+
+    for t in trees.values():
+        prune(t.body, False)
